@@ -94,6 +94,21 @@ def gen_leaf(rng, kinds=None):
         return ['catroi', d, c, [rng.pick(['a', 'b', 'c', 'dd', 'e', 'zz']) for _ in range(rng.randrange(0, 4))]]
     if k == 'cat':
         return ['cat', d, c, [rng.randrange(0, 5) for _ in range(rng.randrange(0, 4))]]
+    if k == 'roix':     # ROI classes beyond the basic ones
+        shape = rng.pick(['annulus', 'rotrect', 'rotellipse', 'path', 'range'])
+        return ['roi', d, c, rng.randrange(8), shape, [rng.randrange(-3, 8) + 0.5, rng.randrange(-3, 8) + 0.5, rng.randrange(1, 7), rng.randrange(1, 7)]]
+    if k == 'cat2d':
+        return ['cat2d', d, {'a': ['b', 'c'], 'dd': ['a']} if rng.chance(0.5) else {'e': ['e', 'a']}]
+    if k == 'catmr':
+        return ['catmr', d, c, {'a': [[-3.5, 2.5]], 'c': [[0.5, 4.5], [7.5, 11.5]]}]
+    if k == 'flood':
+        return ['flood', d, c, [rng.randrange(0, 3) for _ in range(3)], rng.pick([1.5, 2.0, 4.0])]
+    if k == 'roi3d':
+        return ['roi3d', d, c, rng.randrange(8), rng.randrange(8), rng.pick(['rect', 'circle']),
+                [rng.randrange(-3, 8) + 0.5, rng.randrange(-3, 8) + 0.5, rng.randrange(1, 7), rng.randrange(1, 7)]]
+    if k == 'roind':
+        return ['roind', d, c, rng.randrange(8), rng.pick(['rect', 'poly']),
+                [rng.randrange(-3, 8) + 0.5, rng.randrange(-3, 8) + 0.5, rng.randrange(1, 7), rng.randrange(1, 7)]]
     return ['empty']
 
 
@@ -123,6 +138,18 @@ def build_roi(shape, p):
         return R.XRangeROI(x0, x0 + a)
     if shape == 'yrange':
         return R.YRangeROI(y0, y0 + b)
+    if shape == 'annulus':
+        return R.CircularAnnulusROI(x0, y0, a + 0.25, a + b + 0.75)
+    if shape == 'rotrect':
+        return R.RectangularROI(x0, x0 + a, y0, y0 + b, theta=0.5)
+    if shape == 'rotellipse':
+        return R.EllipticalROI(x0, y0, a + 0.25, b + 0.25, theta=0.75)
+    if shape == 'point':
+        return R.PointROI(x0, y0)
+    if shape == 'path':
+        return R.Path([x0, x0 + a, x0 + a + 0.25], [y0, y0 - 0.25, y0 + b])
+    if shape == 'range':
+        return R.RangeROI('x' if a % 2 else 'y', x0, x0 + b)
     raise ValueError(shape)
 
 
@@ -253,6 +280,30 @@ class World(object):
             if not cats:
                 return S.SubsetState()
             return S.CategorySubsetState(cats[r[2] % len(cats)], r[3])
+        if k == 'cat2d':
+            cats = [c for c in d.components if d.get_kind(c) == 'categorical']
+            if not cats:
+                return S.SubsetState()
+            return S.CategoricalROISubsetState2D(r[2], cats[0], cats[-1])
+        if k == 'catmr':
+            cats = [c for c in d.components if d.get_kind(c) == 'categorical']
+            if not cats:
+                return S.SubsetState()
+            return S.CategoricalMultiRangeSubsetState(dict((kk, [tuple(p) for p in v]) for kk, v in r[3].items()),
+                                                      cats[0], self.pick_cid(d, r[2], True))
+        if k == 'flood':
+            mains = [c for c in d.main_components if d.get_kind(c) == 'numerical']
+            if not mains:
+                return S.SubsetState()
+            start = tuple(i % n for i, n in zip(r[3], d.shape))
+            return S.FloodFillSubsetState(d, mains[r[2] % len(mains)], start, r[4])
+        if k == 'roi3d':
+            from glue.core.roi import Projected3dROI
+            proj = np.array([[1., 0, 0, 0], [0, 1., 0, 0], [0, 0, 1., 0], [0, 0, 0, 1.]])
+            return S.RoiSubsetState3d(self.pick_cid(d, r[2], True), self.pick_cid(d, r[3], True), self.pick_cid(d, r[4], True),
+                                      Projected3dROI(build_roi(r[5], r[6]), proj))
+        if k == 'roind':
+            return S.RoiSubsetStateNd([self.pick_cid(d, r[2], True), self.pick_cid(d, r[3], True)], build_roi(r[4], r[5]))
         raise ValueError(r)
 
     # -- delay windows (K2)
@@ -349,7 +400,7 @@ def mask_of(subset_or_data, state=None):
         return 'ok', np.array(m, dtype=bool)
     except IncompatibleAttribute:
         return 'incompatible', None
-    except (IndexError, ValueError, TypeError, AttributeError, AssertionError) as e:
+    except Exception as e:      # the observation records that (and how) evaluation fails
         return 'error:%s' % type(e).__name__, None
 
 
@@ -577,5 +628,5 @@ def mask_of_view(data, state, view):
         return 'ok', np.array(data.get_mask(state, view=view), dtype=bool)
     except IncompatibleAttribute:
         return 'incompatible', None
-    except (IndexError, ValueError, TypeError, AttributeError, AssertionError) as e:
+    except Exception as e:      # the observation records that (and how) evaluation fails
         return 'error:%s' % type(e).__name__, None
